@@ -198,6 +198,11 @@ theorem step_root {cl : Client} (hc : ClientInv cl) (h : RootInv cl) (op : Op) :
           rcases List.mem_append.mp hd with hd | hd
           · intro e; have := hm d hd; rw [e] at this; simp at this
           · intro e; have := hn d hd; rw [e] at this; simp at this
+      | newGraph pubs =>
+        simp only [step, hs] at hst'
+        rw [(newGraph_some cl.gid st cl.sink pubs).1] at hst'
+        injection hst' with e; subst e
+        simp at hg; subst hg; intro d hd; cases hd
     | none =>
       -- only a successful init creates the store
       cases op with
@@ -214,6 +219,21 @@ theorem step_root {cl : Client} (hc : ClientInv cl) (h : RootInv cl) (op : Op) :
         | none => rw [hgs] at hst'; simp only at hst'; rw [hs] at hst'; cases hst'
         | some t => rw [hgs] at hst'; simp [hs, commit] at hst'
       | action ms pubs => simp [step, hs, action] at hst'
+      | newGraph pubs =>
+        simp only [step, hs] at hst'
+        rcases newGraph_spec cl.gid none cl.sink pubs with ⟨e, sink', hcn⟩ | ⟨_, st2, c0, rest, last, sink', hp, hid, hpar, hcn, hcm, _, _, _, _, _, htail⟩
+        · rw [hcn] at hst'; cases hst'
+        · rw [hcn] at hst'; injection hst' with e; subst e
+          cases hgq : st2.graph with
+          | nil => rw [hgq, hp] at hcm; cases hcm
+          | cons x xs =>
+            rw [hgq, hp] at hcm
+            simp only [cmds_cons, List.cons.injEq] at hcm
+            refine ⟨x, xs, rfl, by rw [hcm.1]; exact hid, by rw [hcm.1]; exact hpar, ?_⟩
+            intro d hd
+            rw [hgq] at htail
+            obtain ⟨y, hy⟩ := htail d.cmd (by simp only [cmds, List.map_cons, List.tail_cons, List.mem_map]; exact ⟨d, hd, rfl⟩)
+            rw [hy]; simp
       | add s b =>
         simp only [step] at hst'
         cases hgs : getSlot cl.trxs s with
@@ -288,6 +308,7 @@ theorem step_root {cl : Client} (hc : ClientInv cl) (h : RootInv cl) (op : Op) :
       | none => rw [hgs] at hm; exact h.trxs s' t' hm
       | some t => rw [hgs] at hm; exact h.trxs s' t' (mem_dropSlot hm)
     | action ms pubs => exact h.trxs s' t' hm
+    | newGraph pubs => exact h.trxs s' t' hm
 
 theorem run_root {cl : Client} (hc : ClientInv cl) (h : RootInv cl) (ops : List Op) : RootInv (run cl ops) := by
   induction ops generalizing cl with
